@@ -660,7 +660,7 @@ class CallsMixin:
                 want = parse_type(types[p])
                 env[p] = self.materialize_empty(env[p], want, st) if want.is_container else env[p]
                 cv = self.coerce(env[p], want, st)
-                if env[p].loc is not None:
+                if env[p].loc is not None and cv.loc is None:
                     cv = V(cv.ty, cv.t, env[p].loc)
                 env[p] = cv
         if spec.get('assumed'):
